@@ -179,7 +179,7 @@ Definition lib6 : library :=
              None None
              (Some (mkr (Some (VInt 4)) (VFloat (1 # 2)) (Some (VStr "linear")) None (VInt 0)
                         (Some (VFloat (3 # 4))) None None))
-             (VBool true) (VBool false) (VBool false) None (Some (1, 5)%Z)])])].
+             (VBool true) (VBool false) (VBool false) None (Some (1, 5)%Z) None])])].
 Example C06_nonvacuous :
   let r := api_run EFUEL lib6 "main" [] None None None (1 # 4) in
   fst r = OOk /\ sleeps (snd r) = [1 # 2; 3 # 4] /\ sget "retryCounter" (ctx (snd r)) = Some (VInt 3)
